@@ -19,7 +19,15 @@ func addOverflow(db *Database, pl cellPayload) ([]byte, error) {
 	overflow := pl.Overflow
 	for {
 		if overflow == 0 {
+			if int64(len(to)) < pl.Length {
+				// chain ended before the payload was complete
+				return nil, ErrCorrupted
+			}
 			return to[:pl.Length], nil
+		}
+		if int64(len(to)) >= pl.Length {
+			// chain is longer than the payload needs; likely a cycle
+			return nil, ErrCorrupted
 		}
 		buf, err := db.page(overflow)
 		if err != nil {
